@@ -1647,8 +1647,11 @@ def META(prop):
               "repayments, invalid requests and boundary probes from bar/order-event/signal handlers and jobs with scripted "
               "suspensions. " + _RULES[prop] + "; distinct by hash of (config class, op-kind sequence, outcome sequence)."),
         assumptions=["observations use the public API only (get_balances/get_orders/get_open_orders/get_order_info/get_loans, order and bar events)",
-                     "inputs have <= 10 significant digits so every product the oracles form is exact in the 28-digit decimal context",
-                     "initial balances and loan amounts are on the precision grid and non-negative"],
+                     "the harness computes in exact rationals / an 80-digit decimal context; generated amounts are capped at 1e9",
+                     "initial balances are non-negative; loan amounts and initial balances are on the precision grid except in "
+                     "the runs that deliberately use off-grid ones (the grid-conditioned dust clause of C08 is off there)",
+                     "a violation is reported for the property whose check is running; the same run evaluates every exchange "
+                     "oracle"],
         probes_expected={
             "C01": ["partial_fill", "close_cancelled", "auto_borrow_loan", "offgrid_loan"],
             "C02": ["repay_refused", "competing_orders_in_bar", "auto_borrow_loan"],
